@@ -370,7 +370,7 @@ def main(tier, seed, replay, jobs, scale):
         import json
         cases = [tuple(json.load(open(replay))["replay"]["case"])]
     else:
-        n = int((700 if tier == "quick" else 3000) * scale)
+        n = int((700 if tier == "quick" else 30000) * scale)
         cases = [(seed, i, tier) for i in range(n)]
     par.absorb(run, par.run_cases(run_case, cases, jobs))
     run.assumptions += ["hash size 16 (no truncated-hash collisions)",
